@@ -224,7 +224,7 @@ class C15(Spec):
                  'delimiters, the reader\'s control-flow flag, the arms of the integer branch and the double/float test regenerated from the source each '
                  'run; differential check against the real library (String and File sinks) with a direct C oracle')
     level_text = ('Theorems C15_string_roundtrip / C15_int_roundtrip / C15_intspec_roundtrip / C15_sequence_roundtrip / C15_format_roundtrip / C15_float_consumed / '
-                  'C15_float_value / C15_float_within / C15_float_items: for every NUL-free byte string, every int64 under %$ and under each of the 54 '
+                  'C15_float_value / C15_float_within / C15_float_e_within / C15_float_items: for every NUL-free byte string, every int64 under %$ and under each of the 54 '
                   'specifications %[hh|h|l|ll|j|z|t|q][d|i|o|u|x|X], every finite double under %$ and %[l][f|F|e|E|g|G], and every sequence of them with '
                   'separators, written at every start position of a String or a File, the model of look_from / scan_from_with reads back exactly the value '
                   'that the model of show_to / print_to_with wrote — for an Int under a narrow specification C\'s conversion of the value to the type the '
@@ -240,8 +240,8 @@ class C15(Spec):
     level_note = ('per clause — String: proved. Int (%$, all 54 integer specifications, all int64, ranges of each width): proved. Float value under %$ / %lf / %lF: '
                   'proved (C15_float_value, C15_float_within; the former def C15_float_value_statement is now a theorem). Float under %f / %F without l: known finding '
                   'KF-C15-float-spec-narrow (scan_from_with stores through a float): refuted for 123456789.123456 and 1.5e300 (C15_float_narrow_refuted), proved for '
-                  'every double that is a float value (C15_float_narrow_partial). Float under %e %E %g %G (with or without l): consumed length and position proved, '
-                  'value NOT proved (C15_float_sci_statement is a def) — the driver evaluates it on every such item and the oracle checks it with libc. '
+                  'every double that is a float value (C15_float_narrow_partial). Float under %le / %lE: consumed length, position and numeric closeness (same sign, finite, within 1e-6 relative: C15_float_e_within) proved; '
+                  'that the text is the same under %e %E %g %G, and any value statement for %g %G, NOT proved (C15_float_sci_statement is a def) — the driver evaluates it on every such item and the oracle checks it with libc. '
                   'Trusted: Lean kernel; the model of scanf (integer conversions, floating conversions into double and float, "%c", literal matching, "%n") and of printf '
                   '(integer conversions, "%f" "%e" "%g", "%c") — validated against glibc by the correspondence runs, not proved; translate/g_text.py; harness/driver '
                   'comparison (testing). Outside: flags, width and precision inside a specification, %a, non-finite doubles, reading at a position beyond the end of a String.')
